@@ -311,6 +311,12 @@ def judge_call(b, svc, method, cmd, obs):
             want_status = 204
         if w.get("status") != want_status:
             out.append(("response/status", "%s: response status %s, the design assigns %s" % (name, w.get("status"), want_status)))
+    if method.get("result") is None and not cmd["script"].get("error"):
+        # a method without result still answers with the status the design assigns
+        chosen = chosen_response(method, None)
+        want_status = chosen["code"] if chosen else 204
+        if w.get("status") != want_status:
+            out.append(("response/status", "%s: response status %s, the design assigns %s" % (name, w.get("status"), want_status)))
     if obs.get("write_headers") != 1:
         out.append(("response/write-headers", "%s: %s WriteHeader calls" % (name, obs.get("write_headers"))))
     return out
@@ -394,6 +400,8 @@ def run_shared(c, prop):
     builds += e2e.build_many(c.seed, range(na), lambda i: ["-alias-design"], work)
     c.cov["rule"] += " Then 8 designs around the type Any (whole payload / result, array element, map value, attribute, query parameter, response header)."
     builds += e2e.build_many(c.seed, range(8), lambda i: ["-any-design"], work)
+    # the status design: every final success status, a third of them given inside the response DSL
+    builds += e2e.build_many(c.seed, range(1), lambda i: ["-status-design"], work)
     # the solo table: methods whose payload (and result) is ONE attribute
     builds += e2e.build_many(c.seed, range(4 if c.tier == "quick" else 12), lambda i: ["-solo-design"], work)
     builds += e2e.build_many(c.seed, range(n), lambda i: ["-errors"] if i % 3 == 1 else [], work)
